@@ -449,6 +449,13 @@ def rule_err_to_ok(u, rep, scope_files, crate="epserde", errs=None, exclude_fn=N
                 bad = None
                 if c[0] == "variant" and c[2] == RESULT and c[3] == 1 and isinstance(c[1], tuple) and c[1] and c[1][0] in ("call", "tryok"):
                     bad = "the Err of %s is matched" % label(c[1])[:60]
+                if c[0] == "else" and isinstance(c[1], tuple) and c[1] and c[1][0] in ("call", "tryok") and isinstance(c[2], tuple) \
+                        and any(isinstance(n_, tuple) and n_ and n_[0] == "variant" and n_[2] == RESULT and n_[3] == 0 for n_ in c[2]) \
+                        and not any(isinstance(n_, tuple) and n_ and n_[0] == "variant" and n_[2] == RESULT and n_[3] == 1 for n_ in c[2]):
+                    # ... unless the same value is later established to be Ok (`let v = r?` after the test)
+                    if not any(c2[0] == "variant" and c2[1] == c[1] and c2[2] == RESULT and c2[3] == 0 for c2 in p.conds) \
+                            and not any(ev[0] == "TryEdge" and ev[2] == c[1] for ev in p.events):
+                        bad = "a catch-all arm takes the Err of %s together with the Ok values it does not match" % label(c[1])[:60]
                 if c[0] in ("true", "false"):
                     v = c[1]
                     pol = c[0] == "true"
@@ -713,10 +720,21 @@ def rule_partial_leak(u, rep, scope_files, crate="epserde", rule="LEAK-PARTIAL")
                 for v in e:
                     find_loops(v)
         find_loops(b.thir["root"])
-        if not loops:
-            continue
         whole = []
         rules_err.calls_in(b.crate, b.thir["root"], whole)
+        # closure-driven loops: the closure handed to try_for_each / for_each / map is the loop body
+        for dj, _r, e in whole:
+            if dj.get("krate") == "core" and dj.get("name") in ("try_for_each", "for_each", "map", "try_fold", "fold"):
+                for a in e["args"][1:]:
+                    x = a
+                    while x.get("k") in ("Use", "NeverToAny") and "e" in x:
+                        x = x["e"]
+                    if x.get("k") == "Closure":
+                        cb = u.bodies.get(b.crate.def_id(x["d"]))
+                        if cb is not None and cb.thir is not None:
+                            loops.append({"k": "ClosureLoop", "body": cb.thir["root"], "sp": e.get("sp"), "closure": True})
+        if not loops:
+            continue
         cleans_up = any(dj.get("name") in ("drop_in_place",) for dj, _r, _e in whole)
         if not cleans_up:
             # ... or hands the prefix to a drop guard
@@ -751,6 +769,51 @@ def rule_partial_leak(u, rep, scope_files, crate="epserde", rule="LEAK-PARTIAL")
                     for v in e:
                         find_exits(v)
             find_exits(L)
+            if L.get("closure") and not exits:
+                # a closure body leaves early by returning Err: any `?` inside it was found above; a closure whose
+                # value is a Result is an exit as well
+                exits = [L]
+            # the count of written items: `count = i` right after `write(p.add(i), v)` records the index of the last
+            # item, not how many were written; a cleanup that drops `count` items then misses one
+            idx_names = set()
+            for (e_w, _vt) in writes:
+                a0 = e_w["args"][0]
+                stack = [a0]
+                while stack:
+                    y = stack.pop()
+                    if isinstance(y, dict):
+                        if y.get("k") == "Call" and "d" in y.get("f", {}) and b.crate.defj(y["f"]["d"]).get("name") in ("add", "offset") and len(y["args"]) == 2:
+                            z = y["args"][1]
+                            while z.get("k") in ("Use", "NeverToAny", "Cast") and "e" in z:
+                                z = z["e"]
+                            if z.get("k") in ("Var", "Upvar"):
+                                idx_names.add(z.get("name"))
+                        stack.extend(v for v in y.values() if isinstance(v, (dict, list)))
+                    elif isinstance(y, list):
+                        stack.extend(y)
+            bad_count = None
+            stack = [L]
+            while stack and idx_names:
+                y = stack.pop()
+                if isinstance(y, dict):
+                    if y.get("k") == "Assign":
+                        r_ = y["r"]
+                        while r_.get("k") in ("Use", "NeverToAny", "Cast") and "e" in r_:
+                            r_ = r_["e"]
+                        l_ = y["l"]
+                        while l_.get("k") in ("Use", "Deref") and "e" in l_:
+                            l_ = l_["e"]
+                        wsp = min((tuple(e_w["sp"][:3]) for (e_w, _vt) in writes if e_w.get("sp")), default=None)
+                        # `count = i` *before* the write of item i is the number written so far; after it, one short
+                        after = wsp is None or not y.get("sp") or tuple(y["sp"][:3]) > wsp
+                        if r_.get("k") in ("Var", "Upvar") and r_.get("name") in idx_names and l_.get("k") in ("Var", "Upvar") and after:
+                            bad_count = (l_.get("name"), r_.get("name"), y.get("sp"))
+                    stack.extend(v for v in y.values() if isinstance(v, (dict, list)))
+                elif isinstance(y, list):
+                    stack.extend(y)
+            if bad_count is not None and cleans_up:
+                rep.oblige(False)
+                rep.add(rule, b.n + ":count", "`%s` records the number of items written as `%s = %s`, the index of the last one, and drops that many on failure: the last item written is leaked" % (b.n, bad_count[0], bad_count[1]), b.crate.span(bad_count[2]) if bad_count[2] else b.loc())
             len_in_loop = any(dj.get("name") in ("set_len", "push") for dj, _r, _e in acc)
             # a set_len before the loop: the container already claims the elements (exposing them uninitialised is
             # UNINIT's business, C14), so the written prefix is dropped with it
